@@ -60,7 +60,7 @@ PROPS = {
                       '(Round.panic only for an empty write buffer, never constructed) and the correspondence.',
     },
     'C09': {
-        'modules': ['C09', 'TieWrite'],
+        'modules': ['C09', 'TieWrite', 'TieFrame'],
         'families': [('corpus:defects', 0, 0), ('ep:sizes', 400, 8000), ('ep:mixed', 800, 20000), ('ep:ping', 500, 10000), ('ep:maskpaths', 1, 1),
                      ('pure:hformat', 500, 20000)],
         'rule': 'all message kinds, payload sizes 0..70000 around the encoding boundaries, both roles, histories that trigger automatic pongs and '
@@ -235,7 +235,7 @@ PROPS = {
                       'in order: none invented, none reordered), C11_ping_makes_pong_pending, C13_pong_never_dropped.',
     },
     'C12': {
-        'modules': ['C12', 'C12Global', 'TieWrite', 'TieRead', 'TieRun'],
+        'modules': ['C12', 'C12Global', 'TieWrite', 'TieRead', 'TieRun', 'TieFrame'],
         'families': [('ep:slotrace', 1, 1), ('corpus:defects', 0, 0), ('ep:close', 2000, 60000), ('ep:backpressure', 1500, 40000), ('pure:closecode', 1, 1)],
         'rule': 'close frames with every class of status code (all 65536 through the conversion functions), reasons empty..123 bytes, '
                 'arriving in every connection state, with and without a pending pong',
@@ -276,6 +276,7 @@ PROPS = {
                       'through read is covered by the correspondence and the RFC-decoder monitor.',
     },
     'C18': {
+        'modules': ['C18', 'TieFrame'],
         'families': [('pure:hparse', 1, 1), ('pure:hparseat', 1500, 60000), ('pure:hformat', 2000, 100000), ('pure:fformat', 300, 6000)],
         'exhaustive': True,
         'rule': 'all 65536 values of the first two header bytes with boundary extended lengths, masks and every truncation point '
@@ -291,6 +292,7 @@ PROPS = {
                       'differential run over all first-two-byte values plus an independent RFC header reader as monitor.',
     },
     'C19': {
+        'modules': ['C19', 'TieFrame'],
         'miri': 'mirimask',
         'families': [('fs', 500, 15000), ('pure:mask', 4, 40), ('pure:fformat', 200, 4000), ('ep:maskpaths', 1, 1)],
         'rule': 'payload lengths 0..=67 x 8 alignments x keys sweeping every value of every key byte through the real '
